@@ -71,6 +71,13 @@ NestedTemplates ==
                <<DDyn("p", "", IV("p", "value"), <<>>,
                       <<DAttr("a", IV("p", "key")), DDyn("p", "z", NVar("st"), <<>>, <<DAttr("a", NTpl("q", <<NInterp(0, IV("p", "value")), NInterp(0, IV("z", "key"))>>))>>)>>)>>)}
 
+\* the SAME block type name at two nesting levels with DIFFERENT content: the inner blocks have an
+\* argument (b) that the outer ones do not, and the only reference to a variable sits there
+TwoLevelTemplates ==
+    {DBlock("p", <<>>, <<DAttr("a", NNum(6)), DBlock("p", <<>>, <<DAttr("b", NVar("s"))>>)>>),
+     DDyn("p", "it", NVar("l"), <<>>, <<DAttr("a", IV("it", "key")), DBlock("p", <<>>, <<DAttr("b", NVar("s"))>>)>>),
+     DDyn("p", "it", NVar("l"), <<>>, <<DDyn("p", "inner", NVar("m"), <<>>, <<DAttr("b", IV("inner", "value"))>>)>>)}
+
 Statics == {DBlock("p", <<>>, <<DAttr("a", NNum(6))>>), DBlock("p", <<>>, <<>>), DBlock("q", <<"z">>, <<DAttr("a", StrLit("s"))>>),
             DAttr("a", NNum(2))}
 
@@ -86,7 +93,7 @@ MixPool ==
     \cup {DDyn("p", "it", NVar("l"), <<>>, b) : b \in NestedContent("it")}
 
 ItemPool == IF NestMode = "mix" THEN MixPool
-            ELSE Statics \cup DynTemplates \cup (IF NestMode = "nested" THEN NestedTemplates ELSE {})
+            ELSE Statics \cup DynTemplates \cup (IF NestMode = "nested" THEN NestedTemplates \cup TwoLevelTemplates ELSE {})
 
 InnerList == SBlockList("p", 0, 0, SAttr("a", TDyn, FALSE))
 Specs == {SBlockList("p", 0, 0, SAttr("a", TStr, FALSE)),
@@ -99,6 +106,8 @@ Specs == {SBlockList("p", 0, 0, SAttr("a", TStr, FALSE)),
           SBlockObject("q", 2, SAttr("a", TDyn, FALSE)),
           SObject(<<"a", "ps">>, <<SAttr("a", TNum, FALSE), SBlockTuple("p", 0, 0, SObject(<<"a", "inner">>, <<SAttr("a", TDyn, FALSE), SBlockTuple("p", 0, 0, SAttr("a", TDyn, FALSE))>>))>>),
           SBlockTuple("p", 1, 2, SAttr("a", TDyn, TRUE)),
+          \* one block type name, two nesting levels, different nested specifications
+          SBlockTuple("p", 0, 0, SObject(<<"a", "inner">>, <<SAttr("a", TDyn, FALSE), SBlockTuple("p", 0, 0, SAttr("b", TDyn, FALSE))>>)),
           SBlockTuple("p", 0, 0, SObject(<<"a", "l2">>, <<SAttr("a", TDyn, FALSE),
               SBlockTuple("p", 0, 0, SObject(<<"a", "l3">>, <<SAttr("a", TDyn, FALSE), SBlockTuple("p", 0, 0, SAttr("a", TDyn, FALSE))>>))>>))}
 
